@@ -1,9 +1,9 @@
 package main
 
 import (
-	"go/constant"
 	"fmt"
 	"go/ast"
+	"go/constant"
 	"go/token"
 	"go/types"
 	"sort"
@@ -785,6 +785,23 @@ func intRange(b *types.Basic, sizes types.Sizes) (bits int, signed bool, ok bool
 	return int(sz * 8), b.Info()&types.IsUnsigned == 0, true
 }
 
+// fitsIn: [lo, hi] lies within the range of an integer type of the given width and signedness.
+func fitsIn(lo, hi int64, bits int, signed bool) bool {
+	if signed {
+		if bits >= 64 {
+			return true
+		}
+		return lo >= -(int64(1)<<(bits-1)) && hi <= (int64(1)<<(bits-1))-1
+	}
+	if lo < 0 {
+		return false
+	}
+	if bits >= 63 {
+		return true
+	}
+	return hi <= (int64(1)<<bits)-1
+}
+
 func ruleEConvLossless(p *Program, r *Reporter) {
 	sizes := p.Eval.TypesSizes
 	for _, fn := range p.ReachFuncs(p.Eval, p.Parser) {
@@ -837,6 +854,12 @@ func ruleEConvLossless(p *Program, r *Reporter) {
 				if isCharArith(cv.X) {
 					r.OK(cv.Pos(), key, "character arithmetic on a value already tested to lie in a digit/letter range")
 					continue
+				}
+				if f := p.indexParserFacts(); f.why == "" && onlyCalledWithin(fn, f.entered) {
+					if cf := f.conv[cv.Pos()]; cf != nil && cf.seen > 0 && fitsIn(cf.lo, cf.hi, db, ds) {
+						r.OK(cv.Pos(), key, fmt.Sprintf("the range check is not in this function; by interpretation of the bracket-specifier parser (which this function is part of) the operand lies in [%d, %d] on each of the %d accepting paths that convert it", cf.lo, cf.hi, cf.seen))
+						continue
+					}
 				}
 				r.Bad(instrPos(cv), key, fmt.Sprintf("conversion %s -> %s can change the value (sign or width) and no dominating range check on the operand exists", src.Name(), dst.Name()))
 			}
